@@ -304,6 +304,26 @@ def run_triple(case):
   F3 = [mk(s) for s in specs]
   R3 = [rf(s) for s in specs]
   outs = [run_sig(mk(s), x) for s in specs]
+  # members that are not filter objects: a bank casts numbers (gains) and coefficient lists to filters, in
+  # any position and for any kind of input sequence
+  for label, member, asfilt in (("2", 2, lambda: ZFilter([2])), ("-1", -1, lambda: ZFilter([-1])), ("0", 0, lambda: ZFilter([0])),
+                                ("1/2", F(1, 2), lambda: ZFilter([F(1, 2)])), ("[1, 2]", [1, 2], lambda: ZFilter([1, 2]))):
+    for pos in ("first", "last"):
+      for ik, conv in (("list", list), ("tuple", tuple), ("Stream", lambda v: Stream(list(v))), ("iterator", iter)):
+        mem = list(member) if isinstance(member, list) else member
+        order = [mem, mk(specs[0])] if pos == "first" else [mk(specs[0]), mem]
+        ref_parts = [asfilt(), mk(specs[0])] if pos == "first" else [mk(specs[0]), asfilt()]
+        exp_c = run_sig(ref_parts[1], run_sig(ref_parts[0], x))
+        exp_p = [a_ + b_ for a_, b_ in zip(run_sig(asfilt(), x), outs[0])]
+        for bank, exp in ((CascadeFilter, exp_c), (ParallelFilter, exp_p)):
+          try:
+            got = [Sym.lift(v) for v in bank(*order)(conv(list(x)), zero=Q(0))]
+          except Exception as exc:
+            return bad("bank:plain-member:exception", "%s with the plain member %s (%s) on a %s input raised" % (bank.__name__, label, pos, ik),
+                       None, repr(exc)[:200], nt)
+          if not eqs(got, exp):
+            return bad("bank:plain-member", "%s with the plain member %s (%s) on a %s input is not the bank of the member cast "
+                       "to a filter" % (bank.__name__, label, pos, ik), exp[:4], got[:4], nt)
   for n in (1, 2, 3):
     parts = [mk(s) for s in specs[:n]]
     for route, cas in (("args", CascadeFilter(*parts)), ("list", CascadeFilter(list(parts)))):
